@@ -80,6 +80,20 @@ def main():
                     r["orig_after"] = fields(p)
                     r["newname"] = hashlib.sha1(dig("renamed_by_check").encode()).hexdigest()[:12]
                     r["same_object"] = 1 if q is p else 0
+                    # a portable object may hold its tables as lists while it is being edited: editing the copy's list must leave the original's alone
+                    r["edit_before"], r["edit_after"] = {}, {}
+                    try:
+                        with xd.quiet():
+                            p2 = codeType2Portable(co)
+                            p2.co_names = list(p2.co_names)
+                            p2.co_consts = list(p2.co_consts)
+                            r["edit_before"] = fields(p2)
+                            q2 = p2.replace(co_name="renamed_by_check")
+                            q2.co_names.append("added_to_the_copy")
+                            q2.co_consts.append("added_to_the_copy")
+                            r["edit_after"] = fields(p2)
+                    except Exception as e:
+                        r["edit_err"] = "%s: %s" % (type(e).__name__, str(e)[:120])
                     # the changed copy and, once more, the original go back to native: a result remembered from the first to_native()
                     # must not come back for the copy, and the original must still convert to what it was
                     r["rback_ok"], r["rback"], r["back2_ok"], r["back2"] = 0, {}, 0, {}
